@@ -69,6 +69,8 @@ class Ctx:
         self.seed = seed
         self.t0 = time.time()
         self.scratch = tempfile.mkdtemp(prefix="verif_%s_" % prop)
+        # replay files of earlier runs of this property are stale
+        shutil.rmtree(os.path.join(VERIF, "replays", prop), ignore_errors=True)
         self.obligations = []       # Obligation
         self.failures = []          # dicts: {class, detail, replay}
         self.known_hits = {}        # finding id -> count
